@@ -42,6 +42,7 @@ let rec ty_of (x : sx) : ty =
   | A "int" -> TInt | A "long" -> TLong | A "float" -> TFloat | A "bit" -> TBit | A "bool" -> TBool
   | A "char" -> TChar | A "str" -> TStr | A "void" -> TVoid
   | L [A "arr"; t] -> TArr (ty_of t)
+  | L [A "cls"; A c] -> TClass (cs c)
   | _ -> failwith "bad type"
 let binops = [("+",OAdd);("-",OSub);("*",OMul);("/",ODiv);("%",OMod);("<",OLt);("<=",OLe);(">",OGt);(">=",OGe);("==",OEq);("!=",ONe);
               ("&&",OAnd);("||",OOr);("&",OBAnd);("|",OBOr);("^",OBXor)]
@@ -64,6 +65,16 @@ let rec expr_of (x : sx) : expr =
   | L (A "call" :: A f :: args) -> ECall (cs f, List.map expr_of args)
   | L [A "post"; A n; A o] -> EPost (cs n, o = "++")
   | L [A "asg"; A n; a] -> EAssign (cs n, expr_of a)
+  | L (A "new" :: A c :: args) -> ENew (cs c, List.map expr_of args)
+  | L [A "fld"; a; A f] -> EField (expr_of a, cs f)
+  | L [A "this"] -> EThis
+  | L [A "null"] -> ENull
+  | L (A "mcall" :: a :: A m :: args) -> EMCall (expr_of a, cs m, List.map expr_of args)
+  | L (A "super" :: A m :: args) -> ESuperCall (cs m, List.map expr_of args)
+  | L (A "scall" :: A c :: A m :: args) -> ESCall (cs c, cs m, List.map expr_of args)
+  | L [A "sfld"; A c; A f] -> ESField (cs c, cs f)
+  | L [A "fset"; a; A f; v] -> EFieldSet (expr_of a, cs f, expr_of v)
+  | L [A "sfset"; A c; A f; v] -> ESFieldSet (cs c, cs f, expr_of v)
   | _ -> failwith "bad expr"
 let opt f (x : sx) = match x with A "-" -> None | _ -> Some (f x)
 let rec stmt_of (x : sx) : stmt =
@@ -80,6 +91,7 @@ let rec stmt_of (x : sx) : stmt =
   | L [A "ret"; e] -> SReturn (opt expr_of e)
   | L [A "expr"; e] -> SExpr (expr_of e)
   | L (A "block" :: ss) -> SBlock (List.map stmt_of ss)
+  | L [A "destroy"; e] -> SDestroy (expr_of e)
   | _ -> failwith "bad stmt"
 let fn_of (x : sx) : fdecl =
   match x with
@@ -88,12 +100,42 @@ let fn_of (x : sx) : fdecl =
         fn_params = List.map (function L [t; A n] -> (ty_of t, cs n) | _ -> failwith "bad param") ps;
         fn_body = List.map stmt_of body }
   | _ -> failwith "bad fn"
-let prog_of (x : sx) : program = match x with L (A "prog" :: fs) -> List.map fn_of fs | _ -> failwith "bad prog"
+let params_of ps = List.map (function L [t; A n] -> (ty_of t, cs n) | _ -> failwith "bad param") ps
+let field_of (x : sx) : field =
+  match x with
+  | L [A "field"; A st; A fin; t; A n; init] ->
+      { fd_static = (st = "1"); fd_final = (fin = "1"); fd_ty = ty_of t; fd_name = cs n; fd_init = opt expr_of init }
+  | _ -> failwith "bad field"
+let ctor_of (x : sx) : ctor =
+  match x with
+  | L [A "ctor"; L ps; sup; L body; A d] ->
+      { ct_params = params_of ps;
+        ct_super = (match sup with A "-" -> None | L (A "sup" :: es) -> Some (List.map expr_of es) | _ -> failwith "bad super");
+        ct_body = List.map stmt_of body; ct_default = (d = "1") }
+  | _ -> failwith "bad ctor"
+let meth_of (x : sx) : meth =
+  match x with
+  | L [A "meth"; A n; L ps; ret; L body; A st; A vi] ->
+      { md_name = cs n; md_params = params_of ps; md_ret = ty_of ret; md_body = List.map stmt_of body;
+        md_static = (st = "1"); md_virtual = (vi = "1") }
+  | _ -> failwith "bad meth"
+let class_of (x : sx) : cdecl =
+  match x with
+  | L [A "class"; A n; A b; L (A "fields" :: fs); L (A "ctors" :: cts); L (A "meths" :: ms); dt] ->
+      { cd_name = cs n; cd_base = (if b = "-" then None else Some (cs b)); cd_fields = List.map field_of fs;
+        cd_ctors = List.map ctor_of cts; cd_meths = List.map meth_of ms;
+        cd_dtor = (match dt with A "-" -> None | L (A "dtor" :: ss) -> Some (List.map stmt_of ss) | _ -> failwith "bad dtor") }
+  | _ -> failwith "bad class"
+let prog_of (x : sx) : program =
+  match x with
+  | L [A "prog"; L (A "classes" :: cs_); L (A "fns" :: fs)] -> { p_classes = List.map class_of cs_; p_fns = List.map fn_of fs }
+  | L (A "prog" :: fs) -> { p_classes = []; p_fns = List.map fn_of fs }
+  | _ -> failwith "bad prog"
 let err_s (e : rerr) : string =
   match e with
   | RDivZero -> "divzero" | RModZero -> "modzero"
   | RIndex (i, n) -> Printf.sprintf "index:%s:%s" (string_of_z i) (string_of_z n)
-  | RBitLen -> "bitlen" | RNegSize -> "negsize" | RInitLen -> "initlen"
+  | RNull -> "null" | RBitLen -> "bitlen" | RNegSize -> "negsize" | RInitLen -> "initlen"
   | RUndoc w -> "undoc:" ^ hex (sc w) | RStuck w -> "stuck:" ^ hex (sc w)
 let () =
   iter_lines (fun line ->
